@@ -131,6 +131,18 @@ func init() {
 		m.allowBlock = true
 		return nil
 	})
+	reg(hpkg+"verifOnSync", func(m *Machine, _ *frame, _ token.Pos, _ *ssa.Function, a []Value) Value {
+		if isNilValue(a[0]) {
+			m.onSync = nil
+		} else {
+			m.onSync = a[0]
+		}
+		return nil
+	})
+	reg(hpkg+"verifOnBlock", func(m *Machine, _ *frame, _ token.Pos, _ *ssa.Function, a []Value) Value {
+		m.onBlock = a[0]
+		return nil
+	})
 	reg(hpkg+"verifInlineGo", func(m *Machine, _ *frame, _ token.Pos, _ *ssa.Function, a []Value) Value {
 		m.inlineGo = a[0].(*smt.Term).IsTrue()
 		return nil
@@ -202,8 +214,8 @@ func init() {
 	})
 
 	// ------------------------------------------------------------------ sync
-	lock := func(m *Machine, _ *frame, pos token.Pos, _ *ssa.Function, a []Value) Value {
-		m.syncPoint()
+	lock := func(m *Machine, fr *frame, pos token.Pos, _ *ssa.Function, a []Value) Value {
+		m.syncPoint(fr)
 		p := a[0].(*Value)
 		st := m.mutex(p)
 		if st.locked || st.readers > 0 {
@@ -212,8 +224,8 @@ func init() {
 		st.locked = true
 		return nil
 	}
-	unlock := func(m *Machine, _ *frame, pos token.Pos, _ *ssa.Function, a []Value) Value {
-		m.syncPoint()
+	unlock := func(m *Machine, fr *frame, pos token.Pos, _ *ssa.Function, a []Value) Value {
+		m.syncPoint(fr)
 		st := m.mutex(a[0].(*Value))
 		if !st.locked {
 			panic(targetPanic{msg: "sync: unlock of unlocked mutex", pos: m.posString(pos)})
@@ -225,8 +237,8 @@ func init() {
 	reg("(*sync.Mutex).Unlock", unlock)
 	reg("(*sync.RWMutex).Lock", lock)
 	reg("(*sync.RWMutex).Unlock", unlock)
-	reg("(*sync.Mutex).TryLock", func(m *Machine, _ *frame, pos token.Pos, _ *ssa.Function, a []Value) Value {
-		m.syncPoint()
+	reg("(*sync.Mutex).TryLock", func(m *Machine, fr *frame, pos token.Pos, _ *ssa.Function, a []Value) Value {
+		m.syncPoint(fr)
 		st := m.mutex(a[0].(*Value))
 		if st.locked {
 			return m.C.False()
@@ -234,8 +246,8 @@ func init() {
 		st.locked = true
 		return m.C.True()
 	})
-	reg("(*sync.RWMutex).RLock", func(m *Machine, _ *frame, pos token.Pos, _ *ssa.Function, a []Value) Value {
-		m.syncPoint()
+	reg("(*sync.RWMutex).RLock", func(m *Machine, fr *frame, pos token.Pos, _ *ssa.Function, a []Value) Value {
+		m.syncPoint(fr)
 		st := m.mutex(a[0].(*Value))
 		if st.locked {
 			m.block(func() bool { return !st.locked }, "RWMutex.RLock at "+m.posString(pos))
@@ -243,8 +255,8 @@ func init() {
 		st.readers++
 		return nil
 	})
-	reg("(*sync.RWMutex).RUnlock", func(m *Machine, _ *frame, pos token.Pos, _ *ssa.Function, a []Value) Value {
-		m.syncPoint()
+	reg("(*sync.RWMutex).RUnlock", func(m *Machine, fr *frame, pos token.Pos, _ *ssa.Function, a []Value) Value {
+		m.syncPoint(fr)
 		st := m.mutex(a[0].(*Value))
 		if st.readers <= 0 {
 			panic(targetPanic{msg: "sync: RUnlock of unlocked RWMutex", pos: m.posString(pos)})
@@ -253,7 +265,7 @@ func init() {
 		return nil
 	})
 	reg("(*sync.Once).Do", func(m *Machine, fr *frame, pos token.Pos, _ *ssa.Function, a []Value) Value {
-		m.syncPoint()
+		m.syncPoint(fr)
 		p := a[0].(*Value)
 		st := m.onces[p]
 		if st == nil {
@@ -272,8 +284,8 @@ func init() {
 		m.call(fr, pos, a[1], nil)
 		return nil
 	})
-	reg("(*sync.WaitGroup).Add", func(m *Machine, _ *frame, pos token.Pos, _ *ssa.Function, a []Value) Value {
-		m.syncPoint()
+	reg("(*sync.WaitGroup).Add", func(m *Machine, fr *frame, pos token.Pos, _ *ssa.Function, a []Value) Value {
+		m.syncPoint(fr)
 		st := m.wg(a[0].(*Value))
 		st.n += m.concInt(a[1], "WaitGroup.Add delta")
 		if st.n < 0 {
@@ -281,8 +293,8 @@ func init() {
 		}
 		return nil
 	})
-	reg("(*sync.WaitGroup).Done", func(m *Machine, _ *frame, pos token.Pos, _ *ssa.Function, a []Value) Value {
-		m.syncPoint()
+	reg("(*sync.WaitGroup).Done", func(m *Machine, fr *frame, pos token.Pos, _ *ssa.Function, a []Value) Value {
+		m.syncPoint(fr)
 		st := m.wg(a[0].(*Value))
 		st.n--
 		if st.n < 0 {
@@ -290,8 +302,8 @@ func init() {
 		}
 		return nil
 	})
-	reg("(*sync.WaitGroup).Wait", func(m *Machine, _ *frame, pos token.Pos, _ *ssa.Function, a []Value) Value {
-		m.syncPoint()
+	reg("(*sync.WaitGroup).Wait", func(m *Machine, fr *frame, pos token.Pos, _ *ssa.Function, a []Value) Value {
+		m.syncPoint(fr)
 		st := m.wg(a[0].(*Value))
 		if st.n > 0 {
 			m.block(func() bool { return st.n == 0 }, "WaitGroup.Wait at "+m.posString(pos))
@@ -299,7 +311,7 @@ func init() {
 		return nil
 	})
 	reg("(*sync.Cond).Wait", func(m *Machine, fr *frame, pos token.Pos, fn *ssa.Function, a []Value) Value {
-		m.syncPoint()
+		m.syncPoint(fr)
 		p := a[0].(*Value)
 		L := m.condLocker(p)
 		st := m.cond(p)
@@ -310,8 +322,8 @@ func init() {
 		m.invoke(fr, pos, L, "Lock")
 		return nil
 	})
-	reg("(*sync.Cond).Signal", func(m *Machine, _ *frame, pos token.Pos, _ *ssa.Function, a []Value) Value {
-		m.syncPoint()
+	reg("(*sync.Cond).Signal", func(m *Machine, fr *frame, pos token.Pos, _ *ssa.Function, a []Value) Value {
+		m.syncPoint(fr)
 		st := m.cond(a[0].(*Value))
 		if len(st.waiters) > 0 {
 			st.waiters[0].woken = true
@@ -319,8 +331,8 @@ func init() {
 		}
 		return nil
 	})
-	reg("(*sync.Cond).Broadcast", func(m *Machine, _ *frame, pos token.Pos, _ *ssa.Function, a []Value) Value {
-		m.syncPoint()
+	reg("(*sync.Cond).Broadcast", func(m *Machine, fr *frame, pos token.Pos, _ *ssa.Function, a []Value) Value {
+		m.syncPoint(fr)
 		st := m.cond(a[0].(*Value))
 		for _, w := range st.waiters {
 			w.woken = true
@@ -332,31 +344,31 @@ func init() {
 	// ------------------------------------------------------------------ sync/atomic
 	for _, ty := range []string{"Uint32", "Int32", "Uint64", "Int64", "Uintptr"} {
 		base := "(*sync/atomic." + ty + ")."
-		reg(base+"Load", func(m *Machine, _ *frame, _ token.Pos, _ *ssa.Function, a []Value) Value {
-			m.syncPoint()
+		reg(base+"Load", func(m *Machine, fr *frame, _ token.Pos, _ *ssa.Function, a []Value) Value {
+			m.syncPoint(fr)
 			return *m.atomicCell(a[0])
 		})
-		reg(base+"Store", func(m *Machine, _ *frame, _ token.Pos, _ *ssa.Function, a []Value) Value {
-			m.syncPoint()
+		reg(base+"Store", func(m *Machine, fr *frame, _ token.Pos, _ *ssa.Function, a []Value) Value {
+			m.syncPoint(fr)
 			*m.atomicCell(a[0]) = a[1]
 			return nil
 		})
-		reg(base+"Add", func(m *Machine, _ *frame, _ token.Pos, _ *ssa.Function, a []Value) Value {
-			m.syncPoint()
+		reg(base+"Add", func(m *Machine, fr *frame, _ token.Pos, _ *ssa.Function, a []Value) Value {
+			m.syncPoint(fr)
 			c := m.atomicCell(a[0])
 			n := m.C.Bin(smt.OAdd, (*c).(*smt.Term), a[1].(*smt.Term))
 			*c = n
 			return n
 		})
-		reg(base+"Swap", func(m *Machine, _ *frame, _ token.Pos, _ *ssa.Function, a []Value) Value {
-			m.syncPoint()
+		reg(base+"Swap", func(m *Machine, fr *frame, _ token.Pos, _ *ssa.Function, a []Value) Value {
+			m.syncPoint(fr)
 			c := m.atomicCell(a[0])
 			old := *c
 			*c = a[1]
 			return old
 		})
-		reg(base+"CompareAndSwap", func(m *Machine, _ *frame, _ token.Pos, _ *ssa.Function, a []Value) Value {
-			m.syncPoint()
+		reg(base+"CompareAndSwap", func(m *Machine, fr *frame, _ token.Pos, _ *ssa.Function, a []Value) Value {
+			m.syncPoint(fr)
 			c := m.atomicCell(a[0])
 			eq := m.C.Eq((*c).(*smt.Term), a[1].(*smt.Term))
 			if m.Branch(eq) {
@@ -366,18 +378,18 @@ func init() {
 			return m.C.False()
 		})
 	}
-	reg("(*sync/atomic.Bool).Load", func(m *Machine, _ *frame, _ token.Pos, _ *ssa.Function, a []Value) Value {
-		m.syncPoint()
+	reg("(*sync/atomic.Bool).Load", func(m *Machine, fr *frame, _ token.Pos, _ *ssa.Function, a []Value) Value {
+		m.syncPoint(fr)
 		v := (*m.atomicCell(a[0])).(*smt.Term)
 		return m.C.Not(m.C.Eq(v, m.C.BV(0, 32)))
 	})
-	reg("(*sync/atomic.Bool).Store", func(m *Machine, _ *frame, _ token.Pos, _ *ssa.Function, a []Value) Value {
-		m.syncPoint()
+	reg("(*sync/atomic.Bool).Store", func(m *Machine, fr *frame, _ token.Pos, _ *ssa.Function, a []Value) Value {
+		m.syncPoint(fr)
 		*m.atomicCell(a[0]) = m.C.Ite(a[1].(*smt.Term), m.C.BV(1, 32), m.C.BV(0, 32))
 		return nil
 	})
-	reg("(*sync/atomic.Bool).CompareAndSwap", func(m *Machine, _ *frame, _ token.Pos, _ *ssa.Function, a []Value) Value {
-		m.syncPoint()
+	reg("(*sync/atomic.Bool).CompareAndSwap", func(m *Machine, fr *frame, _ token.Pos, _ *ssa.Function, a []Value) Value {
+		m.syncPoint(fr)
 		c := m.atomicCell(a[0])
 		cur := m.C.Not(m.C.Eq((*c).(*smt.Term), m.C.BV(0, 32)))
 		if m.Branch(m.C.Eq(cur, a[1].(*smt.Term))) {
@@ -387,24 +399,24 @@ func init() {
 		return m.C.False()
 	})
 	// atomic.Pointer[T]: fields (_ [0]*T, _ noCopy, v unsafe.Pointer)
-	reg("(*sync/atomic.Pointer).Load", func(m *Machine, _ *frame, _ token.Pos, _ *ssa.Function, a []Value) Value {
-		m.syncPoint()
+	reg("(*sync/atomic.Pointer).Load", func(m *Machine, fr *frame, _ token.Pos, _ *ssa.Function, a []Value) Value {
+		m.syncPoint(fr)
 		return *m.lastField(a[0])
 	})
-	reg("(*sync/atomic.Pointer).Store", func(m *Machine, _ *frame, _ token.Pos, _ *ssa.Function, a []Value) Value {
-		m.syncPoint()
+	reg("(*sync/atomic.Pointer).Store", func(m *Machine, fr *frame, _ token.Pos, _ *ssa.Function, a []Value) Value {
+		m.syncPoint(fr)
 		*m.lastField(a[0]) = a[1]
 		return nil
 	})
-	reg("(*sync/atomic.Pointer).Swap", func(m *Machine, _ *frame, _ token.Pos, _ *ssa.Function, a []Value) Value {
-		m.syncPoint()
+	reg("(*sync/atomic.Pointer).Swap", func(m *Machine, fr *frame, _ token.Pos, _ *ssa.Function, a []Value) Value {
+		m.syncPoint(fr)
 		c := m.lastField(a[0])
 		old := *c
 		*c = a[1]
 		return old
 	})
-	reg("(*sync/atomic.Pointer).CompareAndSwap", func(m *Machine, _ *frame, pos token.Pos, _ *ssa.Function, a []Value) Value {
-		m.syncPoint()
+	reg("(*sync/atomic.Pointer).CompareAndSwap", func(m *Machine, fr *frame, pos token.Pos, _ *ssa.Function, a []Value) Value {
+		m.syncPoint(fr)
 		c := m.lastField(a[0])
 		if m.equal(*c, a[1], pos).IsTrue() {
 			*c = a[2]
@@ -413,12 +425,12 @@ func init() {
 		return m.C.False()
 	})
 	// atomic.Value: field v any
-	reg("(*sync/atomic.Value).Load", func(m *Machine, _ *frame, _ token.Pos, _ *ssa.Function, a []Value) Value {
-		m.syncPoint()
+	reg("(*sync/atomic.Value).Load", func(m *Machine, fr *frame, _ token.Pos, _ *ssa.Function, a []Value) Value {
+		m.syncPoint(fr)
 		return *m.lastField(a[0])
 	})
-	reg("(*sync/atomic.Value).Store", func(m *Machine, _ *frame, pos token.Pos, _ *ssa.Function, a []Value) Value {
-		m.syncPoint()
+	reg("(*sync/atomic.Value).Store", func(m *Machine, fr *frame, pos token.Pos, _ *ssa.Function, a []Value) Value {
+		m.syncPoint(fr)
 		if a[1].(Iface).T == nil {
 			panic(targetPanic{msg: "sync/atomic: store of nil value into Value", pos: m.posString(pos)})
 		}
@@ -426,24 +438,24 @@ func init() {
 		return nil
 	})
 	for _, w := range []string{"Int32", "Uint32", "Int64", "Uint64"} {
-		reg("sync/atomic.Load"+w, func(m *Machine, _ *frame, _ token.Pos, _ *ssa.Function, a []Value) Value {
-			m.syncPoint()
+		reg("sync/atomic.Load"+w, func(m *Machine, fr *frame, _ token.Pos, _ *ssa.Function, a []Value) Value {
+			m.syncPoint(fr)
 			return *(a[0].(*Value))
 		})
-		reg("sync/atomic.Store"+w, func(m *Machine, _ *frame, _ token.Pos, _ *ssa.Function, a []Value) Value {
-			m.syncPoint()
+		reg("sync/atomic.Store"+w, func(m *Machine, fr *frame, _ token.Pos, _ *ssa.Function, a []Value) Value {
+			m.syncPoint(fr)
 			*(a[0].(*Value)) = a[1]
 			return nil
 		})
-		reg("sync/atomic.Add"+w, func(m *Machine, _ *frame, _ token.Pos, _ *ssa.Function, a []Value) Value {
-			m.syncPoint()
+		reg("sync/atomic.Add"+w, func(m *Machine, fr *frame, _ token.Pos, _ *ssa.Function, a []Value) Value {
+			m.syncPoint(fr)
 			p := a[0].(*Value)
 			n := m.C.Bin(smt.OAdd, (*p).(*smt.Term), a[1].(*smt.Term))
 			*p = n
 			return n
 		})
-		reg("sync/atomic.CompareAndSwap"+w, func(m *Machine, _ *frame, _ token.Pos, _ *ssa.Function, a []Value) Value {
-			m.syncPoint()
+		reg("sync/atomic.CompareAndSwap"+w, func(m *Machine, fr *frame, _ token.Pos, _ *ssa.Function, a []Value) Value {
+			m.syncPoint(fr)
 			p := a[0].(*Value)
 			if m.Branch(m.C.Eq((*p).(*smt.Term), a[1].(*smt.Term))) {
 				*p = a[2]
@@ -604,6 +616,18 @@ func init() {
 		msg := a[1].(Iface)
 		m.setBytesField(msg.V.(*Value), msg.T, a[0].(*Seq))
 		return Iface{}
+	})
+
+	// ------------------------------------------------------------------ grpchan
+	reg("(github.com/fullstorydev/grpchan.HandlerMap).RegisterService", func(m *Machine, _ *frame, pos token.Pos, fn *ssa.Function, a []Value) Value {
+		mp := a[0].(*Map)
+		desc := a[1].(*Value)
+		name := (*desc).(Struct)[0] // ServiceDesc.ServiceName
+		if e := m.mapFind(mp, name, pos); e != nil {
+			panic(targetPanic{msg: "service handler already registered", pos: m.posString(pos)})
+		}
+		m.mapUpdate(mp, name, Struct{desc, a[2]})
+		return nil
 	})
 
 	// ------------------------------------------------------------------ reflect (as used by Invoke)
